@@ -263,6 +263,28 @@ void vf_run_case(Ctx& c, uint64_t index) {
       if (b.s.find('\0') == std::string::npos) { const char* p = b.s.c_str(); Ops ab = ops(va, p), ba = ops(p, va); laws(c, ab, ba, rs, "variant vs const char*: " + wit); }
       { AJ::JsonString js(b.s.data(), b.s.size()); Ops ab = ops(va, js), ba = ops(js, va); laws(c, ab, ba, rs, "variant vs JsonString: " + wit); }
     }
+    // C++ string operands that view the variant's OWN bytes (the pointer as<const char*>() / as<JsonString>() hands out, i.e. the
+    // document's string node or the linked buffer): same address, full length -> equal; same address, other length -> not equal
+    if (j == 1 && a.k == MVal::Str) {
+      AJ::JsonString own = va.as<AJ::JsonString>();
+      const char* p = own.c_str();
+      size_t len = own.size();
+      if (p && len == a.s.size()) {
+        size_t cuts[] = {len, 0, len ? len - 1 : 0, len / 2};
+        for (size_t k : cuts) {
+          bool same = k == len;
+          Ref rs = same ? EQUAL : UNKNOWN;
+          std::string w2 = "variant vs a view of its own storage cut to " + std::to_string(k) + " of " + std::to_string(len) + " bytes: " + wit;
+          { AJ::JsonString js(p, k); Ops ab = ops(va, js), ba = ops(js, va); laws(c, ab, ba, rs, "JsonString " + w2); if (!same && ab.eq) c.violation("equal-with-different-bytes", "variant == JsonString(own pointer, shorter length)", w2); }
+          { std::string_view sv(p, k); Ops ab = ops(va, sv), ba = ops(sv, va); laws(c, ab, ba, rs, "string_view " + w2); if (!same && ab.eq) c.violation("equal-with-different-bytes", "variant == string_view(own pointer, shorter length)", w2); }
+          { AJ::JsonString js(p, k); bool e = wa == js; if (e != same) c.violation("agrees-with-values", "copy of the value in another document vs a view of the first one's storage: == is " + std::to_string(e), w2); }
+          c.count("own_storage_views");
+        }
+        // zero-terminated view of the own bytes: the string up to its first NUL
+        { size_t z = strlen(p); bool same = z == len; Ops ab = ops(va, p), ba = ops(p, va); laws(c, ab, ba, same ? EQUAL : UNKNOWN, "const char* view of its own storage: " + wit);
+          if (!same && ab.eq) c.violation("equal-with-different-bytes", "variant with an embedded NUL == its own as<const char*>()", wit); }
+      }
+    }
     c.count("pair_comparisons", 3);
     c.outcome(r == UNKNOWN ? "laws-only" : "laws+value");
     c.nontrivial(index);
